@@ -120,6 +120,9 @@ pub enum Status {
 pub enum Phase {
 	Before,
 	After,
+	/// the phase in which the audit table afterwards agrees with what the library must assume:
+	/// a panicking lock/try took no effect (Before), a panicking unlock did release (After)
+	Clean,
 }
 
 #[derive(Clone, Copy, Debug)]
@@ -510,6 +513,17 @@ impl World {
 		l.shared.clear();
 	}
 
+	/// drop every hold of `tid` from the owner table (after a leak has been reported)
+	pub fn forget_holds_of(&self, tid: Tid) {
+		let mut g = self.g();
+		for l in g.locks.iter_mut() {
+			if l.excl == Some(tid) {
+				l.excl = None;
+			}
+			l.shared.retain(|t| *t != tid);
+		}
+	}
+
 	pub fn raw_seq(&self, tid: Tid) -> u32 {
 		self.g().threads[tid as usize].raw_seq
 	}
@@ -661,7 +675,11 @@ impl World {
 				};
 				if !f.fired && f.tid == tid && hit {
 					f.fired = true;
-					fault_phase = Some(f.phase);
+					fault_phase = Some(match (f.phase, op) {
+						(Phase::Clean, Op::Unlock) => Phase::After,
+						(Phase::Clean, _) => Phase::Before,
+						(p, _) => p,
+					});
 					break;
 				}
 			}
@@ -1186,6 +1204,14 @@ impl World {
 		g.pois.may.insert(lock);
 		if exclusive {
 			g.pois.must.entry(lock).or_insert_with(|| route.to_string());
+		}
+	}
+
+	/// `lock` is held by a call made while its thread was already unwinding
+	pub fn pois_may(&self, lock: LockId) {
+		let mut g = self.g();
+		if g.pois.enabled && g.pois.tracked.contains(&lock) {
+			g.pois.may.insert(lock);
 		}
 	}
 
